@@ -48,6 +48,7 @@ inline Profile make_profile(const std::string& n) {
     W(O_CREATE, 26); W(O_RELEASE, 8); W(O_CALL, 62); W(O_PUSH_TRACER, 2); W(O_POP_TRACER, 2);
     p.p_with = 60; p.p_fx = 65; p.p_throw_term = 30; p.concentrate = true; p.p_inf = 40; p.p_seq = 10;
   } else if (n == "death") {
+    // up to three requirements per object alive at once
     W(O_WATCH, 22); W(O_UNWATCH, 12); W(O_DESTROY_DW, 16); W(O_COPY_DW, 6); W(O_MOVE_DW, 6); W(O_ASSIGN_DW, 9); W(O_RECREATE_DW, 12);
     W(O_CREATE, 6); W(O_CALL, 8); W(O_RELEASE, 2); W(O_DESTROY_SEQ, 1); W(O_RECREATE_SEQ, 1);
     p.p_seq = 60; p.p_watch_seq = 35; p.concentrate = true;
